@@ -140,10 +140,14 @@ class Agent:
         self.on_reply = None
         self.on_discovery = None
         self.disco_delta = 0
+        self.time_override = None
+        self.boots_override = None
         self.v3_response_hook = None
 
     # ---------------- clock
     def engine_time(self):
+        if self.time_override is not None:
+            return self.time_override
         return int(self.clock() - self.t0)
 
     def reboot(self):
@@ -334,7 +338,7 @@ class Agent:
     def secure(self, u, msgid, flags, scoped: bytes, boots=None, time=None, user=None, engine=None) -> bytes:
         """build an outgoing v3 message at security level `flags` for user u"""
         engine = self.engine if engine is None else engine
-        boots = self.boots if boots is None else boots
+        boots = (self.boots if self.boots_override is None else self.boots_override) if boots is None else boots
         time = self.engine_time() if time is None else time
         uname = (u.name if u else b"") if user is None else user
         salt = b""
